@@ -349,7 +349,11 @@ pub enum VDestination {
 
 #[derive(Debug, Clone, PartialEq, Eq, Hash)]
 pub enum VConnectionError {
-    Io { kind: io::ErrorKind, raw_os_error: Option<i32>, text: String },
+    Io {
+        kind: io::ErrorKind,
+        raw_os_error: Option<i32>,
+        text: String,
+    },
     Authentication(String),
     Timeout,
     HostUnreachable,
@@ -625,7 +629,8 @@ pub fn echo_serialize(v6: bool, identifier: u16, sequence_number: u16, data: Byt
         data,
     };
     if v6 {
-        crate::icmp_utils::Message::V6(crate::icmp_utils::v6::Message::EchoRequest(echo)).serialize()
+        crate::icmp_utils::Message::V6(crate::icmp_utils::v6::Message::EchoRequest(echo))
+            .serialize()
     } else {
         crate::icmp_utils::Message::V4(crate::icmp_utils::v4::Message::Echo(echo)).serialize()
     }
@@ -719,7 +724,10 @@ impl crate::datagram_pipe::Source for UdpSourceIn {
 #[async_trait]
 impl crate::datagram_pipe::Sink for UdpSinkIn {
     type Input = forwarder::UdpDatagram;
-    async fn write(&mut self, d: forwarder::UdpDatagram) -> io::Result<crate::datagram_pipe::SendStatus> {
+    async fn write(
+        &mut self,
+        d: forwarder::UdpDatagram,
+    ) -> io::Result<crate::datagram_pipe::SendStatus> {
         let sent = self
             .0
             .write(VUdpOut {
@@ -751,7 +759,10 @@ where
     let (fwd_shared, fwd_source, fwd_sink) =
         crate::udp_forwarder::make_multiplexer(ctx.0.clone(), log_utils::IdChain::empty())?;
     let mut p = crate::udp_pipe::DuplexPipe::new(
-        (Box::new(UdpSourceIn(client.0)), Box::new(UdpSinkIn(client.1))),
+        (
+            Box::new(UdpSourceIn(client.0)),
+            Box::new(UdpSinkIn(client.1)),
+        ),
         (fwd_shared, fwd_source, fwd_sink),
         move |d, n| metrics(d == pipe::SimplexDirection::Outgoing, n),
         timeout,
